@@ -204,6 +204,22 @@ def _nested_path_through(node: ast.AST, target: ast.AST) -> list[str] | None:
     return None
 
 
+def _argsafe(e: ast.expr) -> bool:
+    """An argument that can be written in place of the parameter: plain names / attribute reads / constants, and tests or
+    conditional expressions over those (no calls)."""
+    if _simple(e):
+        return True
+    if isinstance(e, ast.IfExp):
+        return _argsafe(e.test) and _argsafe(e.body) and _argsafe(e.orelse)
+    if isinstance(e, ast.Compare):
+        return _argsafe(e.left) and all(_argsafe(c) for c in e.comparators)
+    if isinstance(e, ast.UnaryOp):
+        return _argsafe(e.operand)
+    if isinstance(e, ast.BoolOp):
+        return all(_argsafe(v) for v in e.values)
+    return False
+
+
 def _comp_bound(e: ast.AST) -> set[str]:
     return {x.id for c in ast.walk(e) if isinstance(c, (ast.ListComp, ast.SetComp, ast.DictComp, ast.GeneratorExp)) for g in c.generators
             for x in ast.walk(g.target) if isinstance(x, ast.Name)}
@@ -264,7 +280,7 @@ def _expand_closures(fn: ast.AST, skip_known: tuple[str, set[str]] | None = None
                 params_ = [x.arg for x in a.args]
                 uses_ = [n for n in ast.walk(fn) if isinstance(n, ast.Name) and n.id == st.name]
                 calls_ = [n for n in ast.walk(fn) if isinstance(n, ast.Call) and isinstance(n.func, ast.Name) and n.func.id == st.name and not n.keywords
-                          and len(n.args) == len(params_) and all(_simple(x) for x in n.args)]
+                          and len(n.args) == len(params_) and all(_argsafe(x) for x in n.args)]
                 bound_ = {n.id for n in ast.walk(body_[0].value) if isinstance(n, ast.Name) and isinstance(n.ctx, ast.Store)}
                 argnames_ = {x.id for c_ in calls_ for a_ in c_.args for x in ast.walk(a_) if isinstance(x, ast.Name)}
                 if uses_ and len(uses_) == len(calls_) and not (bound_ & argnames_) and not (bound_ - _comp_bound(body_[0].value)):
